@@ -485,6 +485,15 @@ func ruleV2(p *Prog) *RuleResult {
 			continue
 		}
 		ok, why := cj.check(p, f)
+		if !ok {
+			// the conjunct may have been moved into a helper whose verdict the validator returns
+			for _, g := range forwardedCheckers(f) {
+				if ok2, why2 := cj.check(p, g); ok2 {
+					ok, why = true, why2+" (in "+fname(g)+", whose error the validator returns)"
+					break
+				}
+			}
+		}
 		if ok {
 			res.ok(c, p.pos(f.Pos()), why)
 		} else {
@@ -589,4 +598,54 @@ func ruleV1(p *Prog) *RuleResult {
 	}
 	_ = fmt.Sprint
 	return res
+}
+
+// forwardedCheckers: same-package functions called by f whose error result f returns (tail call, or the
+// usual `if err := g(...); err != nil { return err }`), up to two calls deep.
+func forwardedCheckers(f *ssa.Function) []*ssa.Function {
+	var out []*ssa.Function
+	seen := map[*ssa.Function]bool{f: true}
+	var visit func(h *ssa.Function, depth int)
+	visit = func(h *ssa.Function, depth int) {
+		if depth > 2 {
+			return
+		}
+		for _, b := range h.Blocks {
+			for _, ins := range b.Instrs {
+				c, ok := ins.(*ssa.Call)
+				if !ok {
+					continue
+				}
+				g := c.Call.StaticCallee()
+				if g == nil || g.Blocks == nil || seen[g] || fnPkgPath(g) != fnPkgPath(f) || errResultIndex(g.Signature) < 0 {
+					continue
+				}
+				returned := false
+				var follow func(v ssa.Value, d int)
+				follow = func(v ssa.Value, d int) {
+					if d > 3 || v.Referrers() == nil {
+						return
+					}
+					for _, r := range *v.Referrers() {
+						switch x := r.(type) {
+						case *ssa.Return:
+							returned = true
+						case *ssa.Extract:
+							follow(x, d+1)
+						case *ssa.Phi:
+							follow(x, d+1)
+						}
+					}
+				}
+				follow(c, 0)
+				if returned {
+					seen[g] = true
+					out = append(out, g)
+					visit(g, depth+1)
+				}
+			}
+		}
+	}
+	visit(f, 0)
+	return out
 }
